@@ -33,8 +33,8 @@ def gen_batch(rng, tier, nreq=None, kinds=None):
     elist.append([n, n + 1, [30.0], [40.0]])     # the island N{n} <-> N{n+1}: unreachable from the mesh
     width = rng.choice([0.45e12, 0.6e12, 0.8e12])
     lib = {'band': [191.35e12, 191.35e12 + width], 'margin': rng.choice([0, 1, 2, 2]),
-           'osnr': {'m100': rng.choice([9, 11, 13]), 'm200': rng.choice([14, 16, 18, 21]),
-                    'm400': rng.choice([18, 20, 23]), 'mhard': 45, 'h1': 45, 'h2': 50},
+           'osnr': {'m100': rng.choice([9, 11, 13, 20]), 'm200': rng.choice([14, 18, 21, 23, 24.5, 26]),
+                    'm400': rng.choice([18, 20, 23, 24, 25.5, 27]), 'mhard': 45, 'h1': 45, 'h2': 50},
            'penalties': rng.random() < 0.5, 'offset200': rng.choice([0, 0, 1, -1]),
            'roadm': {'add_drop_osnr': rng.choice([33, 38, 38, 45]), 'pdl': rng.choice([0, 0.5]), 'pmd': rng.choice([0, 3e-12])},
            'p_design': rng.choice([None, 2, 2, 3]), 'sat_offset': rng.choice([3, 5, 5])}
